@@ -170,6 +170,30 @@ func RunC10(e *core.Env) int {
 				rep.Distinct("valid-corpus|" + c.S.ID)
 			}
 		}
+		// :reverse methods with hooks: the property does not say which operand is a reversed method's "own
+		// destination", so both parameter orders are offered; one of them at least must be usable, and
+		// whichever is accepted must compile (next monitor)
+		revAccepted, revSeen := 0, 0
+		for _, c := range b.Cases {
+			if strings.HasPrefix(c.S.ID, "kr10rev") {
+				revSeen++
+				rep.Eval(1)
+				if c.Run.Exit == 0 && len(c.TypeErrs) == 0 {
+					revAccepted++
+					rep.Distinct("reverse-hooks-accepted|" + c.S.ID)
+				}
+			}
+		}
+		if revSeen > 0 && revAccepted == 0 {
+			var files map[string]string
+			for _, c := range b.Cases {
+				if strings.HasPrefix(c.S.ID, "kr10rev") {
+					files = c.ReplayFiles()
+				}
+			}
+			rep.Violate(&core.Violation{Property: "C10", Monitor: "acceptance", Symptom: "reverse-method-hooks-unusable", Features: map[string]string{}, Case: "kr10rev",
+				Detail: "a :reverse method accepts hooks in neither parameter order (declared destination first / declared source first) with compiling output", Files: files})
+		}
 		// an accepted hook whose CALL does not compile hands the hook something other than what it declares
 		for _, c := range b.Cases {
 			if c.Run.Exit != 0 || len(c.TypeErrs) == 0 {
@@ -327,5 +351,7 @@ func corpusC10() []*scen.Scenario {
 			"func Before(d, s *ext.Shape) {\n\tvtr.Enter(\"hooks.Before\", d, s)\n}\n\nfunc After(d, s *ext.Shape) {\n\tvtr.Enter(\"hooks.After\", d, s)\n}\n"
 		out = append(out, s)
 	}
+	out = append(out, corpusImportedFuncs("kc10")...)
+	out = append(out, corpusReverseHooks("kr10rev")...)
 	return out
 }
